@@ -52,6 +52,9 @@ def type_head(t):
     t = re.sub(r"^&('\w+ )?(mut )?", '', t)
     if t.startswith('(') and t.endswith(')') and mir.match_paren(t, 0) == len(t) - 1 and ',' not in strip_generics(mir._strip_nested(t[1:-1])):
         t = t[1:-1].strip()
+    if t.startswith('(') and t.endswith(')') and mir.match_paren(t, 0) == len(t) - 1 and len(t) > 2:
+        # tuple type: normalise every component (`(proto_vulcan::lterm::LTerm, LTerm<U, E>)` -> `(LTerm, LTerm)`)
+        return '(' + ', '.join(type_head(p) for p in mir.split_top(t[1:-1]) if p.strip()) + ')'
     dyn = ''
     if t.startswith('dyn '):
         dyn = 'dyn '
@@ -1278,6 +1281,13 @@ class Machine(object):
             rt = self.runtime_type(args[0]) if args else None
             if rt:
                 cands = [rt, ty]
+        # `<X as Trait<.., X>>::m` with a blanket `impl<T> Trait<.., Self> for T`: the reflexive instance is the blanket one
+        # even when X also has its own impl of the trait for another argument (`Upcast<LTerm> for Option<T>`)
+        if key.trait and '<' in key.trait and ty and key.trait.split('<', 1)[1][:-1] == ty and (ty, key.trait, key.method) not in p.impls:
+            base0 = key.trait.split('<')[0]
+            for (ty2, tr, m2), nm in p.impls.items():
+                if m2 == key.method and tr == base0 + '<Self>' and re.fullmatch(r'[A-Z]', ty2 or ''):
+                    return nm
         for t in cands:
             n = p.impls.get((t, key.trait, key.method))
             if n:
